@@ -5,10 +5,24 @@
   `uxarray/grid/connectivity.py`) for EVERY standard-form table: any number of faces, any
   width, any padding layout, any numbering.  The specification `Edges.Spec` is the decidable
   predicate the driver evaluates on the implementation's output.
+
+  Round E additions (after the mesh section):
+  * ORDER — `np.unique(axis=0)` is modelled as sort + dedup; `edges_sorted`,
+    `edges_strictly_increasing`: the model numbers the edges in the lexicographic order of their
+    sorted pairs; `spec_sorted_unique`: `Spec` + that order determines the WHOLE output, so the
+    harness compares implementation and model with identical numbering.
+  * SIMPLE FACES — `face_lists_each_edge_once`, `edge_fed_each_face_once`, `edge_faces_distinct`:
+    faces with pairwise distinct corners (≥ 3) have pairwise distinct boundary segments, hence
+    no face lists an edge twice and `edge_face_connectivity` never holds a face twice.
+  * OUTSIDE THE QUANTIFIER — `nPerFace_ok_any`, `edges_complete_any`, `edges_once_any`: three
+    clauses hold on EVERY table; `asis_midfill_unsound`, `asis_leadfill_faceEdges`: the other two
+    need the standard form (the code validates nothing, neither does the model).
 -/
 import UxVerif.Lemmas.SortUniq
 import UxVerif.Lemmas.Rows
 import UxVerif.Lemmas.Handshake
+import UxVerif.Lemmas.C02Order
+import UxVerif.Lemmas.C02Simple
 
 namespace UxVerif.C02
 open UxVerif UxVerif.Edges
@@ -297,6 +311,397 @@ theorem build_meets_spec_mesh {n w : Nat} (m : Mesh)
     (hm : ∀ f ∈ m, 0 < f.length ∧ f.length ≤ w ∧ ∀ x ∈ f, x < n) :
     Spec (pad w m) w (build (pad w m)) :=
   build_meets_spec (stdForm_pad m hm)
+
+/-! ### the ORDER of the derived edges (`np.unique(axis=0)` = sort + dedup) -/
+
+/-- `edge_nodes_unique` before the fill rows are dropped is strictly increasing in the
+    lexicographic order of rows: this is the part of `np.unique(axis=0)` the model carries. -/
+theorem uniqAll_sorted (t : Table) : SortedBy pairLt (uniqAll t) :=
+  sorted_sortUniqBy pairLt_strictTotal _
+
+/-- **the model lists the edges in the lexicographic order of their sorted pairs** (any table) -/
+theorem edges_sorted (t : Table) : SortedBy pairLt (edges t) :=
+  sortedBy_filter _ (uniqAll_sorted t)
+
+/-- index form: a smaller edge number is a lexicographically smaller pair -/
+theorem edges_strictly_increasing (t : Table) (i j : Nat) (hij : i < j)
+    (hj : j < (edges t).length) :
+    pairLt ((edges t)[i]'(Nat.lt_trans hij hj)) (edges t)[j] = true :=
+  sortedBy_getElem (edges_sorted t) i j hij hj
+
+theorem getI?_inj {α} {l : List α} (hnd : l.Nodup) {x y : Int} {a : α}
+    (hx : getI? l x = some a) (hy : getI? l y = some a) : x = y := by
+  unfold getI? at hx hy
+  by_cases h1 : x < 0
+  · simp [h1] at hx
+  · by_cases h2 : y < 0
+    · simp [h2] at hy
+    · simp only [h1, h2, if_false] at hx hy
+      obtain ⟨lx, gx⟩ := List.getElem?_eq_some_iff.mp hx
+      obtain ⟨ly, gy⟩ := List.getElem?_eq_some_iff.mp hy
+      have := (List.getElem_inj (h₀ := lx) (h₁ := ly) hnd).mp (by rw [gx, gy])
+      omega
+
+/-- **the specification plus the order determines the output completely**: an output meeting
+    `Spec` whose edges are stored as sorted pairs in lexicographic order IS the model's output —
+    same edge numbering, same face-edge table, entry for entry.  (So implementation and model
+    are compared with identical numbering, not up to a renumbering.) -/
+theorem spec_sorted_unique {n w : Nat} {t : Table} (h : StdForm n w t) (o : Out)
+    (hs : Spec t w o) (hp : ∀ e ∈ o.edges, sortPair e = e) (hso : SortedBy pairLt o.edges) :
+    o = build t := by
+  obtain ⟨hperm, hN, hslots⟩ := spec_unique h o hs
+  have hmap : o.edges.map sortPair = o.edges := by
+    conv => rhs; rw [← List.map_id o.edges]
+    exact List.map_congr_left (fun e he => by simpa using hp e he)
+  rw [hmap] at hperm
+  have hE : o.edges = edges t :=
+    sortedBy_ext pairLt_strictTotal hso (edges_sorted t) (fun a => hperm.mem_iff)
+  have hnd : (edges t).Nodup := nodup_of_sorted pairLt_strictTotal _ (edges_sorted t)
+  have hfix : ∀ e ∈ edges t, sortPair e = e := fun e he => hp e (hE ▸ he)
+  have mfe := faceEdges_ok h
+  have ofe := hs.2.2.2.1
+  have hFE : o.faceEdges = faceEdges t := by
+    apply List.ext_getElem (by rw [ofe.1, mfe.1])
+    intro f hf1 hf2
+    have hf : f < t.length := by rw [← ofe.1]; exact hf1
+    have r1 := ofe.2 f hf
+    have r2 := mfe.2 f hf
+    rw [rowAt_getElem _ f hf1] at r1
+    rw [rowAt_getElem _ f hf2] at r2
+    apply List.ext_getElem (by rw [r1.1, r2.1])
+    intro j hj1 hj2
+    have hjw : j < w := by rw [← r1.1]; exact hj1
+    have s1 := r1.2 j hjw
+    have s2 := r2.2 j hjw
+    rw [entry_eq_getElem _ j hj1] at s1
+    rw [entry_eq_getElem _ j hj2] at s2
+    by_cases hjk : j < (faceOf (rowAt t f)).length
+    · rw [if_pos hjk] at s1 s2
+      obtain ⟨a, ha, ea, hea, hsa⟩ := s1
+      obtain ⟨b, hb, eb, heb, hsb⟩ := s2
+      have hab : a = b := by
+        have x := Option.mem_def.mp ha
+        have y := Option.mem_def.mp hb
+        rw [x] at y; exact Option.some.inj y
+      rw [hE] at hea
+      have hea' := Option.mem_def.mp hea
+      have heb' := Option.mem_def.mp heb
+      have mema : ea ∈ edges t := by
+        unfold getI? at hea'
+        split at hea'
+        · cases hea'
+        · exact List.mem_of_getElem? hea'
+      have memb : eb ∈ edges t := by
+        unfold getI? at heb'
+        split at heb'
+        · cases heb'
+        · exact List.mem_of_getElem? heb'
+      have : ea = eb := by rw [← hfix ea mema, ← hfix eb memb, hsa, hsb, hab]
+      rw [this] at hea'
+      exact getI?_inj hnd hea' heb'
+    · rw [if_neg hjk] at s1 s2
+      rw [s1, s2]
+  cases o
+  simp only [build, Out.mk.injEq]
+  exact ⟨hE, hFE, hN⟩
+
+/-- the hypotheses of `spec_sorted_unique` are met by the model itself -/
+theorem build_canonical {n w : Nat} {t : Table} (h : StdForm n w t) :
+    (∀ e ∈ (build t).edges, sortPair e = e) ∧ SortedBy pairLt (build t).edges := by
+  refine ⟨?_, edges_sorted t⟩
+  intro e he
+  obtain ⟨r, _, hs⟩ := edge_is_seg h e he
+  exact rowSegs_sorted r e hs
+
+example : SortedBy pairLt (edges [[2, 0, 1, FILL], [3, 1, 0, 2]]) := edges_sorted _
+example : edges [[2, 0, 1, FILL], [3, 1, 0, 2]] = [(0, 1), (0, 2), (1, 2), (1, 3), (2, 3)] := by decide
+/-- `spec_sorted_unique` is not vacuous … -/
+example : Out.mk [(0, 1), (0, 2), (1, 2)] [[1, 0, 2]] [3] = build [[2, 0, 1]] :=
+  spec_sorted_unique (n := 3) (w := 3) (by decide) _ (by decide) (by decide) (by decide)
+/-- … and the order hypothesis is needed: the same edges numbered differently meet `Spec` -/
+example : Spec [[2, 0, 1]] 3 (Out.mk [(1, 2), (0, 2), (0, 1)] [[1, 2, 0]] [3]) ∧
+    Out.mk [(1, 2), (0, 2), (0, 1)] [[1, 2, 0]] [3] ≠ build [[2, 0, 1]] := by decide
+
+/-- `np.unique`'s contract (the sorted unique rows) determines the model's result: any strictly
+    increasing list with the same members as the input is `uniqPair` of it -/
+theorem uniqPair_eq_of_sorted (l u : List (Int × Int)) (hs : SortedBy pairLt u)
+    (hm : ∀ a, a ∈ u ↔ a ∈ l) : u = uniqPair l :=
+  sortedBy_ext pairLt_strictTotal hs (sorted_sortUniqBy pairLt_strictTotal l)
+    (fun a => by rw [hm a, mem_uniqPair])
+
+example : uniqPair [(1, 2), (0, 5), (1, 2), (0, 1)] = [(0, 1), (0, 5), (1, 2)] := by decide
+
+/-! ### simple faces (pairwise distinct corners, at least three): each face lists each of its
+    edges once, and the edge→face loop never records the same face twice for an edge -/
+
+theorem nPerFace_getD_of_spec {t : Table} {N : List Nat} (hN : NPerFaceOK t N) (f : Nat)
+    (hf : f < t.length) : N.getD f 0 = (faceOf (rowAt t f)).length := by
+  unfold NPerFaceOK at hN
+  rw [hN, rowAt_getElem t f hf]
+  simp [List.getD, List.getElem?_eq_getElem hf]
+
+/-- **a simple face lists each of its edges once**: in ANY output meeting `Spec` the real entries
+    of every face-edge row are pairwise distinct (the form `Incidence.edgeFace`'s loop reads). -/
+theorem face_lists_each_edge_once {n w : Nat} {t : Table} (h : StdForm n w t)
+    (hsimple : SimpleFaces t) (o : Out) (hs : Spec t w o) :
+    ∀ f, f < o.faceEdges.length → (Incidence.faceEdgesOf o.faceEdges o.nPerFace f).Nodup := by
+  obtain ⟨_, _, _, hfe, hN⟩ := hs
+  intro f hf'
+  have hf : f < t.length := by rw [← hfe.1]; exact hf'
+  have hr : rowAt t f ∈ t := by rw [rowAt_getElem t f hf]; exact List.getElem_mem hf
+  unfold Incidence.faceEdgesOf
+  rw [nPerFace_getD_of_spec hN f hf]
+  exact faceEdgeRow_nodup (faceOf_le_width (h _ hr)) (hfe.2 f hf) (hsimple _ hr)
+
+/-- real face-edge entries of an output meeting `Spec` are valid edge numbers -/
+theorem faceEdges_valid_of_spec {n w : Nat} {t : Table} (h : StdForm n w t) (o : Out)
+    (hs : Spec t w o) (f : Nat) (hf : f < t.length) :
+    ∀ x ∈ Incidence.faceEdgesOf o.faceEdges o.nPerFace f, 0 ≤ x ∧ x < (o.edges.length : Int) := by
+  obtain ⟨_, _, _, hfe, hN⟩ := hs
+  have hr : rowAt t f ∈ t := by rw [rowAt_getElem t f hf]; exact List.getElem_mem hf
+  have hkw := faceOf_le_width (h _ hr)
+  obtain ⟨hlen, hslots⟩ := hfe.2 f hf
+  intro x hx
+  unfold Incidence.faceEdgesOf at hx
+  rw [nPerFace_getD_of_spec hN f hf] at hx
+  obtain ⟨j, hj, rfl⟩ := List.getElem_of_mem hx
+  simp only [List.length_take] at hj
+  have hjk : j < (faceOf (rowAt t f)).length := by omega
+  have s := hslots j (by omega)
+  rw [if_pos hjk, entry_eq_getElem _ j (by omega)] at s
+  obtain ⟨_, _, e, he, _⟩ := s
+  rw [List.getElem_take]
+  have he' := Option.mem_def.mp he
+  unfold getI? at he'
+  split at he'
+  · cases he'
+  · have := (List.getElem?_eq_some_iff.mp he').1
+    omega
+
+/-- every edge of an output meeting `Spec` is the edge of some face slot -/
+theorem edge_is_fed_of_spec {n w : Nat} {t : Table} (h : StdForm n w t) (o : Out)
+    (hs : Spec t w o) (e : Nat) (he : e < o.edges.length) :
+    Incidence.feed (Incidence.efEvents o.faceEdges o.nPerFace) e ≠ [] := by
+  have hs' := hs
+  obtain ⟨hsound, _, honce, hfe, hN⟩ := hs
+  obtain ⟨_, _, r, hr, hseg⟩ := hsound _ (List.getElem_mem he)
+  obtain ⟨f, hf, rfl⟩ := List.getElem_of_mem hr
+  obtain ⟨j, hj, hjs⟩ := List.getElem_of_mem hseg
+  have hjk : j < (faceOf t[f]).length := by rw [length_rowSegs] at hj; exact hj
+  have hkw := faceOf_le_width (h _ (List.getElem_mem hf))
+  obtain ⟨hlen, hslots⟩ := hfe.2 f hf
+  rw [rowAt_getElem t f hf] at hslots
+  have s := hslots j (by omega)
+  rw [if_pos hjk, entry_eq_getElem _ j (by omega)] at s
+  obtain ⟨a, ha, e', he', hse⟩ := s
+  have ha' : a = sortPair o.edges[e] := by
+    have := Option.mem_def.mp ha
+    rw [List.getElem?_eq_getElem hj] at this
+    rw [← Option.some.inj this, hjs]
+  -- the slot's entry is the number `e` itself (each unordered pair is listed once)
+  have he'' := Option.mem_def.mp he'
+  unfold getI? at he''
+  split at he''
+  · cases he''
+  · rename_i hneg
+    obtain ⟨hlt, hget⟩ := List.getElem?_eq_some_iff.mp he''
+    have hidx : ((rowAt o.faceEdges f)[j]'(by omega)).toNat = e := by
+      unfold EdgesOnce at honce
+      have l1 : ((rowAt o.faceEdges f)[j]'(by omega)).toNat < (o.edges.map sortPair).length := by
+        simpa using hlt
+      have l2 : e < (o.edges.map sortPair).length := by simpa using he
+      refine (List.getElem_inj (h₀ := l1) (h₁ := l2) honce).mp ?_
+      simp only [List.getElem_map]
+      rw [hget, hse, ha']
+    have hmemFE : (rowAt o.faceEdges f)[j]'(by omega)
+        ∈ Incidence.faceEdgesOf o.faceEdges o.nPerFace f := by
+      unfold Incidence.faceEdgesOf
+      rw [nPerFace_getD_of_spec hN f hf, rowAt_getElem t f hf]
+      have hjt : j < ((rowAt o.faceEdges f).take (faceOf t[f]).length).length := by
+        simp only [List.length_take]; omega
+      have : (rowAt o.faceEdges f)[j]'(by omega)
+          = ((rowAt o.faceEdges f).take (faceOf t[f]).length)[j]'hjt := by
+        rw [List.getElem_take]
+      rw [this]; exact List.getElem_mem _
+    have hev : (e, Int.ofNat f) ∈ Incidence.efEvents o.faceEdges o.nPerFace := by
+      unfold Incidence.efEvents
+      simp only [List.mem_flatMap, List.mem_range, List.mem_map, Prod.mk.injEq]
+      exact ⟨f, by rw [hfe.1]; exact hf, _, hmemFE, hidx, rfl⟩
+    exact List.ne_nil_of_mem ((Incidence.mem_feed _ _ _).mpr hev)
+
+/-- the faces the loop of `_build_edge_face_connectivity` writes into the row of one edge are
+    pairwise different (no manifold hypothesis: an edge may bound any number of faces) -/
+theorem edge_fed_each_face_once {n w : Nat} {t : Table} (h : StdForm n w t)
+    (hsimple : SimpleFaces t) (o : Out) (hs : Spec t w o) (e : Nat) :
+    (Incidence.feed (Incidence.efEvents o.faceEdges o.nPerFace) e).Nodup := by
+  apply EdgeFaces.feed_ef_nodup
+  intro f hf
+  have hf' : f < t.length := by rw [← hs.2.2.2.1.1]; exact hf
+  exact ⟨face_lists_each_edge_once h hsimple o hs f hf,
+    fun x hx => (faceEdges_valid_of_spec h o hs f hf' x hx).1⟩
+
+/-- **the two entries of every `edge_face_connectivity` row are different** (a face and the
+    padding value, or two different faces), for the table C03's model builds from ANY edge tables
+    meeting `Spec` on a standard-form table of simple faces.  This is `DistinctFaces` of
+    `Props/C09.lean` with `EF := Incidence.edgeFace FE N EN.length`. -/
+theorem edge_faces_distinct {n w : Nat} {t : Table} (h : StdForm n w t)
+    (hsimple : SimpleFaces t) (o : Out) (hs : Spec t w o) :
+    ∀ p ∈ Incidence.edgeFace o.faceEdges o.nPerFace o.edges.length, p.1 ≠ p.2 := by
+  intro p hp
+  obtain ⟨e, he, rfl⟩ := List.getElem_of_mem hp
+  rw [EdgeFaces.edgeFace_len] at he
+  have hget := EdgeFaces.edgeFace_getElem o.faceEdges o.nPerFace o.edges.length e he
+  rw [List.getElem?_eq_getElem (by rw [EdgeFaces.edgeFace_len]; exact he)] at hget
+  rw [Option.some.inj hget]
+  apply EdgeFaces.slots_distinct _ (edge_is_fed_of_spec h o hs e he)
+    (edge_fed_each_face_once h hsimple o hs e)
+  intro x hx
+  have := (Incidence.mem_feed _ _ _).mp hx
+  unfold Incidence.efEvents at this
+  simp only [List.mem_flatMap, List.mem_range, List.mem_map, Prod.mk.injEq] at this
+  obtain ⟨f, _, _, _, _, rfl⟩ := this
+  have : (0 : Int) ≤ Int.ofNat f := Int.natCast_nonneg f
+  have := FILL_neg
+  omega
+
+/-- … in particular for the edge tables the C02 model derives itself -/
+theorem edge_faces_distinct_build {n w : Nat} {t : Table} (h : StdForm n w t)
+    (hsimple : SimpleFaces t) :
+    ∀ p ∈ Incidence.edgeFace (faceEdges t) (nNodesPerFace t) (edges t).length, p.1 ≠ p.2 :=
+  edge_faces_distinct h hsimple (build t) (build_meets_spec h)
+
+/-- the padded table of a mesh whose faces have pairwise distinct corners, at least three each,
+    consists of simple faces -/
+theorem simpleFaces_pad (w : Nat) (m : Mesh) (hm : ∀ f ∈ m, f.Nodup ∧ 3 ≤ f.length) :
+    SimpleFaces (pad w m) := by
+  intro r hr
+  rcases List.mem_map.mp hr with ⟨f, hf, rfl⟩
+  obtain ⟨h1, h2⟩ := hm f hf
+  unfold SimpleRow
+  rw [faceOf_padRow]
+  refine ⟨?_, by simpa using h2⟩
+  unfold List.Nodup
+  rw [List.pairwise_map]
+  exact List.Pairwise.imp (fun hab heq => hab (Int.ofNat.inj heq)) h1
+
+/-- non-vacuity: two triangles and a quad around a shared edge (edge (0,1) bounds THREE faces) -/
+example : StdForm 5 4 [[0, 1, 2, FILL], [1, 0, 3, FILL], [0, 1, 4, 2]] ∧
+    SimpleFaces [[0, 1, 2, FILL], [1, 0, 3, FILL], [0, 1, 4, 2]] := by decide
+example : ∀ p ∈ Incidence.edgeFace (faceEdges [[0, 1, 2, FILL], [1, 0, 3, FILL], [0, 1, 4, 2]])
+    (nNodesPerFace [[0, 1, 2, FILL], [1, 0, 3, FILL], [0, 1, 4, 2]])
+    (edges [[0, 1, 2, FILL], [1, 0, 3, FILL], [0, 1, 4, 2]]).length, p.1 ≠ p.2 :=
+  edge_faces_distinct_build (n := 5) (w := 4) (by decide) (by decide)
+/-- both hypotheses are needed: a face visiting a corner twice (`0 1 0 2`) walks edge (0,1) twice,
+    and a two-corner face lists its only edge in both slots — `edge_face` then holds a face twice -/
+example : ¬ (∀ p ∈ Incidence.edgeFace (faceEdges [[0, 1, 0, 2]]) (nNodesPerFace [[0, 1, 0, 2]])
+    (edges [[0, 1, 0, 2]]).length, p.1 ≠ p.2) := by decide
+example : ¬ (∀ p ∈ Incidence.edgeFace (faceEdges [[0, 1, FILL]]) (nNodesPerFace [[0, 1, FILL]])
+    (edges [[0, 1, FILL]]).length, p.1 ≠ p.2) := by decide
+
+/-! ### outside the quantifier: tables NOT in standard form.
+    The real builders validate nothing (no exception on padding in the middle of a row, on an empty
+    row, on indices out of range): the model is total in the same way, and the harness compares
+    it with the code entry for entry on a malformed-input stream.  Three of the five clauses of
+    `Spec` survive on EVERY table; the other two need the standard form (counterexamples below). -/
+
+/-- any row is its real corners followed, if anything follows, by a padding entry -/
+theorem row_split (r : List Int) :
+    ∃ tl, r ++ [FILL] = faceOf r ++ FILL :: tl := by
+  induction r with
+  | nil => exact ⟨[], by simp [faceOf]⟩
+  | cons a r ih =>
+    by_cases ha : a = FILL
+    · subst ha
+      exact ⟨r ++ [FILL], by simp [faceOf]⟩
+    · obtain ⟨tl, htl⟩ := ih
+      refine ⟨tl, ?_⟩
+      have : faceOf (a :: r) = a :: faceOf r := by
+        unfold faceOf
+        rw [List.takeWhile_cons]
+        simp [ha]
+      rw [this, List.cons_append, htl, List.cons_append]
+
+/-- **`n_nodes_per_face` is the number of entries before the first padding entry, for EVERY
+    table** (standard form or not) -/
+theorem nNodesRow_any (r : List Int) : nNodesRow r = (faceOf r).length := by
+  unfold nNodesRow
+  obtain ⟨tl, htl⟩ := row_split r
+  rw [htl, idxOf_fill_append _ _ (faceOf_ne_fill r)]
+
+theorem nPerFace_ok_any (t : Table) : NPerFaceOK t (nNodesPerFace t) := by
+  unfold NPerFaceOK nNodesPerFace
+  exact List.map_congr_left (fun r _ => nNodesRow_any r)
+
+/-- the pairs of ANY row start with its boundary segments -/
+theorem rowPairs_any (r : List Int) : ∃ tl, rowPairs r = rowSegs r ++ tl := by
+  obtain ⟨tl, htl⟩ := row_split r
+  unfold rowPairs rowSegs closeRow
+  simp only []
+  rw [htl, idxOf_fill_append _ _ (faceOf_ne_fill r),
+    List.set_append_right _ _ (Nat.le_refl _)]
+  simp only [Nat.sub_self, List.set_cons_zero]
+  cases hf : faceOf r with
+  | nil => exact ⟨(List.zip (r.headD FILL :: tl) tl).map sortPair, by simp [segs]⟩
+  | cons a f =>
+    have hhead : r.headD FILL = a := by
+      cases r with
+      | nil => simp [faceOf] at hf
+      | cons b r =>
+        unfold faceOf at hf
+        rw [List.takeWhile_cons] at hf
+        split at hf
+        · simp at hf; simp [hf.1]
+        · cases hf
+    rw [hhead]
+    refine ⟨(List.zip (a :: tl) tl).map sortPair, ?_⟩
+    simp only [List.cons_append, List.tail_cons, segs_cons]
+    rw [← List.map_append]
+    congr 1
+    have e1 : f ++ a :: tl = (f ++ [a]) ++ tl := by simp
+    have e2 : a :: (f ++ [a] ++ tl) = (a :: f) ++ (a :: tl) := by simp
+    rw [e1, e2, List.zip_append (by simp)]
+
+/-- **every boundary segment of every face is listed, for EVERY table** -/
+theorem edges_complete_any (t : Table) : EdgesComplete t (edges t) := by
+  intro r hr s hs
+  refine List.mem_map.mpr ⟨s, ?_, rowSegs_sorted r s hs⟩
+  refine (mem_edges t s).mpr ⟨⟨r, hr, ?_⟩, rowSegs_noFill r s hs⟩
+  obtain ⟨tl, htl⟩ := rowPairs_any r
+  rw [htl]; exact List.mem_append_left _ hs
+
+/-- **… exactly once, and never with padding, for EVERY table** -/
+theorem edges_once_any (t : Table) : EdgesOnce (edges t) := by
+  unfold EdgesOnce
+  have hmap : (edges t).map sortPair = edges t := by
+    conv => rhs; rw [← List.map_id (edges t)]
+    apply List.map_congr_left
+    intro e he
+    obtain ⟨⟨r, _, hp⟩, _⟩ := (mem_edges t e).mp he
+    unfold rowPairs at hp
+    obtain ⟨q, _, rfl⟩ := List.mem_map.mp hp
+    simpa using sortPair_idem q
+  rw [hmap]
+  exact nodup_of_sorted pairLt_strictTotal _ (edges_sorted t)
+
+theorem edges_noFill_any (t : Table) : ∀ e ∈ edges t, e.1 ≠ FILL ∧ e.2 ≠ FILL := by
+  intro e he
+  have := ((mem_edges t e).mp he).2
+  unfold hasFill at this
+  simpa using this
+
+/-- the standard form IS needed for the remaining two clauses: with padding in the middle of a
+    row the builders (code and model alike, the harness shows identical tables) invent the edge
+    (0,1) between the closing corner and what follows the padding … -/
+theorem asis_midfill_unsound :
+    ¬ EdgesSound [[0, FILL, 1, 2]] (build [[0, FILL, 1, 2]]).edges := by decide
+/-- … and on a row whose padding starts the row the face-edge row points at an edge although
+    the face has no corner -/
+theorem asis_leadfill_faceEdges :
+    ¬ FaceEdgesOK [[FILL, 0, 1]] 3 (build [[FILL, 0, 1]]).edges (build [[FILL, 0, 1]]).faceEdges := by
+  decide
+
+example : build [[0, FILL, 1, 2]] = ⟨[(0, 0), (0, 1), (1, 2)], [[0, 1, 2, FILL]], [1]⟩ := by decide
+example : ¬ StdForm 3 4 [[0, FILL, 1, 2]] := by decide
 
 /-! ### non-vacuity: concrete tables meeting the hypothesis (checked by kernel evaluation) -/
 
